@@ -69,7 +69,7 @@ def run_cases(args):
         ref = {s: sp.read_ids(Dataset(root), s) for s in ("train", "test")}
         ref_info = json.loads(Dataset(root)._dataset_info.model_dump_json())
         for kind, target in [("copy", base / "nested" / "deeper" / f"c{i}"), ("copy", base / f"ünï©ødé ☃ {i}"), ("copy", base / f"with blank {i}"),
-                             ("move", base / f"moved{i}"), ("relative", base / f"rel{i}")]:
+                             ("move", base / f"moved{i}"), ("relative", base / f"rel{i}"), ("dotdot", base / f"up {i}"), ("symlink", base / f"linked{i}")]:
             target.parent.mkdir(parents=True, exist_ok=True)
             src = root
             if kind == "move":
@@ -84,6 +84,19 @@ def run_cases(args):
                         d2 = Dataset(Path(target.name))
                     finally:
                         os.chdir(cwd)
+                elif kind == "dotdot":
+                    # reached from a sibling working directory through `..`
+                    here = base / f"cwd{i}" / "deep"; here.mkdir(parents=True, exist_ok=True)
+                    cwd = os.getcwd(); os.chdir(here)
+                    try:
+                        d2 = Dataset(Path("..") / ".." / target.name)
+                    finally:
+                        os.chdir(cwd)
+                elif kind == "symlink":
+                    link = base / f"link{i}"
+                    if link.is_symlink(): link.unlink()
+                    link.symlink_to(target, target_is_directory=True)
+                    d2 = Dataset(link)
                 else:
                     d2 = Dataset(str(target) if i % 2 else target)
                 r["info_same"] = json.loads(d2._dataset_info.model_dump_json()) == ref_info
